@@ -98,6 +98,17 @@ CHECKS['C08'] = dict(
     note='Trusted: clang lowering (hosted against the system headers, -fno-builtin), irdump, absint/lin, the summaries of '
          'tolower/toupper and of the sibling libc functions called across units (each analysed on its own). strtok is only '
          'covered through strchr/strcspn.')
+CHECKS['C02'] = dict(
+    category='other', design_ref='DESIGN.md 5/C02',
+    technique='abstract interpretation over LLVM IR of every instantiated member under the class contract (size <= capacity, m_data owns capacity*sizeof(T)); IR dataflow rules for flat_map/flat_set',
+    text='For igris::vector<int> and igris::vector<VTr> (probe element with external special members): every constructor and '
+         'method re-establishes m_size <= m_capacity and leaves in m_data a block of exactly the recorded capacity (or null), '
+         'every element read/write/construct/destroy/assign lies inside the allocation, size bookkeeping follows the '
+         'definition of each operation - for all sizes, positions and arguments. flat_map/flat_set: no member returns a '
+         'reference to a temporary, insert and count search with the same function, all lookups scan by key equality. '
+         'Sequence equality with std::vector/std::map and exactly-once element lifetimes are not decided here.',
+    note='Trusted: clang lowering (libstdc++ helper templates are interpreted as IR), irdump, absint/lin, the argument '
+         'contracts in checks/c02.py (iterators point into the vector at positions <= size).')
 NA_REASON = 'check not built yet (work in progress; see DESIGN.md section 9)'
 
 m = {"version": 1,
